@@ -1,0 +1,37 @@
+// +build verif
+
+package varlink
+
+import (
+	"net"
+
+	"github.com/varlink/go/varlink/internal/ctxio"
+)
+
+// White-box accessors for the model-based verification harness in /verif.
+// Compiled only with -tags verif; nothing here is reachable from a normal build.
+
+// VerifSetListener installs a caller-provided listener, as Bind would.
+func (s *Service) VerifSetListener(l net.Listener) {
+	s.mutex.Lock()
+	s.listener = l
+	s.mutex.Unlock()
+}
+
+// VerifActiveConns reads the number of accepted connections not yet finished.
+func (s *Service) VerifActiveConns() int64 {
+	s.mutex.Lock()
+	n := s.conncounter
+	s.mutex.Unlock()
+	return n
+}
+
+// VerifNewConnection returns a client Connection over an arbitrary net.Conn.
+func VerifNewConnection(c net.Conn) *Connection {
+	return &Connection{conn: ctxio.NewConn(c)}
+}
+
+// VerifNewRW returns the library's context-aware stream over an arbitrary net.Conn.
+func VerifNewRW(c net.Conn) ReadWriterContext {
+	return ctxio.NewConn(c)
+}
